@@ -59,6 +59,35 @@ CHECKS = {
              "different outcome counts; all type-valid bracketings of chains of length 3-4 (thorough: 5) give the reference statistics in time-ordered row-major layout. Bounded: 1 qubit "
              "(qutrit / 2 qubits for the linear pairs), probabilities >= 1e-3, library listed in checks/objlib.py.",
         design_ref="DESIGN.md 3/C06"),
+    "C07": dict(
+        technique="symbolic execution of the real tensor_product / embedding code on symbolic factors + z3 (LRA; polynomial identities under monomial relaxation) against Kronecker-product references",
+        category="other",
+        text="For 2-3 (thorough 4) subsystems of dimension 2/3 in every permutation of subsystem names, with one factor symbolic at a time (all factors symbolic for pairs): the result's "
+             "operator equals the Kronecker product of the factors in ascending name order (states, POVMs with pairwise different outcome counts and multi-index layout per nums_local_outcomes, "
+             "gates via HS, measurement processes via shape), independent of argument order/grouping; qutrit->2-qubit embedding of states, POVMs (symbolic) and a one-parameter family of "
+             "non-unitary gates (spectral parametrisation) preserves trace preservation and statistics of embedded inputs.",
+        design_ref="DESIGN.md 3/C07"),
+    "C08": dict(
+        technique="symbolic execution of the real tomography classes (calc_matA/vecB, generate_prob_dists_sequence -> Experiment -> compose_qoperations) with the unknown object symbolic + z3 (LRA/NRA) against Born-rule references",
+        category="other",
+        text="For QST/POVMT/QPT/QMPT, both parametrisations, 1 qubit (qutrit thorough; qutrit QMPT in quick), tester sets with mixed outcome counts and schedule lists 'all' / permuted / repeated / subsets: "
+             "A x + b equals the Born-rule probabilities in (schedule, outcome) order for ALL variable vectors x; the executed circuits equal the model for all objects on the equality constraint with "
+             "probabilities >= 1e-3; one column per variable; full column rank decided over all unit directions for the complete tester sets.",
+        design_ref="DESIGN.md 3/C08"),
+    "C09": dict(
+        technique="symbolic execution of the real LinearEstimator with symbolic true object / symbolic data (concrete tester sets) + z3 (QF_LRA)",
+        category="other",
+        text="For the four tomography types, both parametrisations, complete and over-complete 1-qubit tester sets (qutrit thorough): exact distributions of a symbolic object give back that object for ALL "
+             "objects and independently of the (symbolic integer) sample counts; for ALL data vectors in [-2,2]^n (incl. non-normalised) the estimate satisfies the normal equations A^T(Av+b-f)=0; "
+             "sequence estimation equals single estimation element-wise. inv(A^T A) is concrete LAPACK on the concrete tester model.",
+        design_ref="DESIGN.md 3/C09"),
+    "C12": dict(
+        technique="symbolic execution of the real loss classes with symbolic variables, increments, data and weights + z3 (polynomial identities under monomial relaxation; ln uninterpreted; quotient lemmas proved by exact NRA)",
+        category="other",
+        text="Squared-error losses (generic and fast): exact Taylor identity f(x+h)-f(x)-<grad,h>-1/2 h^T H h = 0 in symbolic (x,h,q,W) and value == weighted squared distance on the model probabilities; "
+             "fast == generic (value, gradient) under identity / custom / inverse-covariance weights; every accepted weighting mode equals the reference with the documented weights (2-3 outcomes, thorough 4-5). "
+             "Relative entropy (generic and fast), away from the clipping thresholds: value, gradient and Hessian equal the defining formulas with ln uninterpreted. SimpleQuadraticLossFunction Taylor identity.",
+        design_ref="DESIGN.md 3/C12"),
     "C16": dict(
         technique="symbolic execution of the real index / distribution code (symbolic probabilities, symbolic integer indices) + z3 (LRA/NRA with division lemmas); CrossHair on index_util with symbolic shapes",
         category="other",
